@@ -255,3 +255,10 @@ Proof.
   apply (acl_conversion_split false c pl' H1 H2). apply Forall_forall. intros i Hi. apply item_srcb_ok.
   rewrite forallb_forall in HF. now apply HF.
 Qed.
+
+(** C06 in checked form: an entry accepted by the checker is a fixed point of its own text *)
+Theorem fixpoint_checked c t : plat_okb (plat c) = true -> src_builtb c t = true ->
+  parse_ace_text c (render_ace c t) = Ok t.
+Proof.
+  intros P H. apply src_built_fixpoint; [destruct (plat c); try discriminate; auto|now apply src_builtb_ok].
+Qed.
